@@ -684,3 +684,122 @@ theorem C01_end_to_end_plain (cx : Codecs) (debug validate : Bool) (depth : Nat)
   exact ⟨want (cutMsgs (ms.drop k) mb.toNat) o, by simp, C01_plain_reply_conforms ms k mb.toNat o hk1⟩
 
 end Kafka.Props.C01
+
+/-! ## end to end for compressed and nested logs -/
+
+namespace Kafka.Props.C01.Nested
+open Kafka Kafka.Spec Kafka.Model Kafka.Props.C02 Kafka.Props.C02.Nested Kafka.Props.C01
+
+/-- the highest offset an entry stands for, as the broker books it: a message's own offset, a wrapper's offset field -/
+def lastOf : (d : Nat) → Entry d → Int
+  | 0, m => m.offset
+  | _+1, .inl m => m.offset
+  | _+1, .inr (_, last, _) => last
+
+/-- a wrapper's offset is at or above every offset inside it (Kafka: it *is* the last inner offset) -/
+def lastBounds (d : Nat) (e : Entry d) : Prop := ∀ m ∈ flat d e, m.offset ≤ lastOf d e
+
+/-- a partition log of (possibly compressed, possibly nested) entries as the specification broker stores it -/
+def nestedEntries (comp : Int → Bytes → Bytes) (d : Nat) (es : List (Entry d)) : List LogEntry :=
+  es.map fun e => ⟨lastOf d e, lastOf d e, wire comp d e⟩
+
+theorem cut_prefix (comp : Int → Bytes → Bytes) (d : Nat) : ∀ (es : List (Entry d)) (t : Nat), cut comp d es t <+: es := by
+  intro es
+  induction es with
+  | nil => intro t; simp [cut]
+  | cons e r ih =>
+    intro t
+    simp only [cut]
+    split
+    · exact (List.prefix_cons_inj e).mpr (ih _)
+    · exact List.nil_prefix
+
+theorem flatMap_prefix {α β} (f : α → List β) {l1 l2 : List α} (h : l1 <+: l2) : l1.flatMap f <+: l2.flatMap f := by
+  obtain ⟨t, rfl⟩ := h
+  simp [List.flatMap_append]
+
+/-- **the specification broker's answer for any such log**: the encoded entries from some entry on — having skipped only
+    entries all of whose messages lie below the asked offset — cut at `max_bytes` -/
+theorem spec_fetch_nested (comp : Int → Bytes → Bytes) (d : Nat) (ps : PartState) (es : List (Entry d))
+    (h : ps.entries = nestedEntries comp d es) (hb : ∀ e ∈ es, lastBounds d e) (o mb : Int) :
+    ∃ k, (∀ m ∈ (es.take k).flatMap (flat d), m.offset < o) ∧
+      fetchBytes ps o mb = ((es.drop k).flatMap (wire comp d)).take mb.toNat := by
+  unfold fetchBytes
+  rw [h]
+  have key : ∀ (l : List (Entry d)), (∀ e ∈ l, lastBounds d e) → ∃ k, (∀ m ∈ (l.take k).flatMap (flat d), m.offset < o) ∧
+      (nestedEntries comp d l).dropWhile (fun e => decide (e.last < o)) = nestedEntries comp d (l.drop k) := by
+    intro l
+    induction l with
+    | nil => intro _; exact ⟨0, by simp, by simp [nestedEntries]⟩
+    | cons e r ih =>
+      intro hl
+      by_cases hm : lastOf d e < o
+      · obtain ⟨k, hk1, hk2⟩ := ih (fun x hx => hl x (by simp [hx]))
+        refine ⟨k + 1, ?_, ?_⟩
+        · intro x hx
+          simp only [List.take_succ_cons, List.flatMap_cons, List.mem_append] at hx
+          rcases hx with hx | hx
+          · have := hl e (by simp) x hx; omega
+          · exact hk1 x hx
+        · simp only [nestedEntries, List.map_cons, List.dropWhile_cons, hm, decide_true, if_true, List.drop_succ_cons]
+          exact hk2
+      · refine ⟨0, by simp, ?_⟩
+        simp only [nestedEntries, List.map_cons, List.dropWhile_cons, hm, decide_false, Bool.false_eq_true, if_false, List.drop_zero]
+  obtain ⟨k, hk1, hk2⟩ := key es hb
+  refine ⟨k, hk1, ?_⟩
+  simp only []
+  rw [hk2]
+  congr 1
+  unfold nestedEntries
+  generalize es.drop k = l
+  induction l with
+  | nil => rfl
+  | cons m r ih => simp only [List.map_cons, List.flatMap_cons, ih]
+
+/-- **end to end for compressed and nested partition logs**: whatever the asked offset and fetch size, what the model's
+    decoder exposes from the specification broker's answer is a gap-free prefix of the messages available from the asked
+    offset — every poll over such a log is an `Ev.poll` permitted by `Ev.ok`, and `C01_history` applies.  Relative to
+    decompressors that undo the broker's compressors (`Inv`); nesting up to the depth the decoder admits. -/
+theorem C01_end_to_end_nested (cx : Codecs) (comp : Int → Bytes → Bytes) (hinv : Inv cx comp) (debug validate : Bool)
+    (d k : Nat) (ps : PartState) (es : List (Entry d)) (h : ps.entries = nestedEntries comp d es)
+    (hok : ∀ e ∈ es, entryOK comp d e) (hb : ∀ e ∈ es, lastBounds d e) (o mb : Int) :
+    ∃ out, fromSlice cx debug (d + k) (es.length + 1) (fetchBytes ps o mb) o validate [] = .ok out ∧
+      out <+: avail ((es.flatMap (flat d)).map asMessage) o := by
+  obtain ⟨j, hj1, hj2⟩ := spec_fetch_nested comp d ps es h hb o mb
+  rw [hj2]
+  have hlen : (cut comp d (es.drop j) mb.toNat).length ≤ es.length + 1 := by
+    have := cut_length comp d (es.drop j) mb.toNat
+    simp at this
+    omega
+  rw [C02_nested cx comp hinv debug o validate d k (es.drop j) mb.toNat (es.length + 1) []
+    (fun e he => hok e (List.mem_of_mem_drop he)) hlen]
+  refine ⟨want ((cut comp d (es.drop j) mb.toNat).flatMap (flat d)) o, by simp, ?_⟩
+  -- what is exposed is a prefix of what the kept entries hold …
+  have h1 : (cut comp d (es.drop j) mb.toNat).flatMap (flat d) <+: (es.drop j).flatMap (flat d) :=
+    flatMap_prefix _ (cut_prefix comp d _ _)
+  have h2 : want ((cut comp d (es.drop j) mb.toNat).flatMap (flat d)) o <+: want ((es.drop j).flatMap (flat d)) o := by
+    unfold want
+    exact (h1.filter _).map _
+  -- … and the skipped entries hold nothing at or above the asked offset
+  have h3 : want ((es.drop j).flatMap (flat d)) o = avail ((es.flatMap (flat d)).map asMessage) o := by
+    unfold want avail
+    rw [List.filter_map]
+    congr 1
+    have hsplit : es.flatMap (flat d) = (es.take j).flatMap (flat d) ++ (es.drop j).flatMap (flat d) := by
+      rw [← List.flatMap_append, List.take_append_drop]
+    rw [hsplit, List.filter_append]
+    have : ((es.take j).flatMap (flat d)).filter ((fun m => decide (o ≤ m.offset)) ∘ asMessage) = [] := by
+      rw [List.filter_eq_nil_iff]
+      intro m hm
+      have hlt := hj1 m hm
+      have : ¬ o ≤ m.offset := by omega
+      simp [asMessage, this]
+    rw [this, List.nil_append]
+    apply List.filter_congr
+    intro m _
+    simp [asMessage]
+    rfl
+  rw [← h3]
+  exact h2
+
+end Kafka.Props.C01.Nested
